@@ -16,6 +16,7 @@
     burst <limit> <timeout_ms> <u|p> <ring capacity> <jobs> <microseconds>  -> conc value=<jobs> panic=0 crash=0 dropped=0
       (one Proactor, small ring, all jobs pushed without polling; the completion channel is unbounded in the model)
     busyfd <limit> <timeout_ms> <u|p> <script>   results while an fd is ready on every poll -> conc totals
+    collect <limit> <timeout_ms> <u|p> <pop|popx|cancel|submit|submitx|spawnb> <v|e|p> <tag>  -> got value | got error | got unwind c17-payload-<tag>
     parked <limit> <timeout_ms> <u|p> <hold_ms> <poll_timeout_ms>   shared pool held by a foreign dispatcher -> conc value=<limit+1> ..
 -/
 import Compio.Model.Common
@@ -215,6 +216,23 @@ def step (m : Mode) (line : String) : Mode × String :=
     match l.toNat? with
     | some l => (m, concOp l [List.replicate l Kind.value, [Kind.value]])
     | none => (m, "bad-op")
+  | ["collect", _l, _t, _drv, path, kind, tag], _ =>
+    let path? : Option CollectPath := match path with
+      | "pop" => some .pop | "popx" => some .popWithExtra | "cancel" => some .cancel
+      | "submit" => some .submit | "submitx" => some .submitWithExtra | "spawnb" => some .spawnBlocking
+      | _ => none
+    match path?, tag.toNat? with
+    | some path, some tag =>
+      let job? : Option JobResult := match kind with
+        | "v" => some (.ok (tag + 1000)) | "e" => some (.err 33) | "p" => some (.panicked tag) | _ => none
+      match job? with
+      | some job =>
+        match collect path (catchUnwindIo job) with
+        | .value _ => (m, "got value")
+        | .error _ => (m, "got error")
+        | .unwind p => (m, s!"got unwind c17-payload-{p}")
+      | none => (m, "bad-op")
+    | _, _ => (m, "bad-op")
   | ["hist", l], _ =>
     match l.toNat? with
     | some l => (.hist (some (Spec.sinit l)), "ok")
